@@ -73,15 +73,22 @@ def ofUTxO (u : UTxOModel) : Json :=
       | none => .null)]
 
 def jAux (j : Json) : R Aux := do
-  pure ⟨← jOptBytes j "inline_hash", ← getBytes j "script_hash"⟩
+  pure ⟨← getBytes j "inline_hash", ← getBytes j "script_hash"⟩
 
-def jSide (j : Json) : R (List (String × J)) :=
-  match getOpt j "side" with
+def jTable (j : Json) (k : String) : R (List (String × J)) :=
+  match getOpt j k with
   | some s => jList (jPair (fun k => k.getStr?) jTree) s
   | none => pure []
 
-def ofSide (s : List (String × J)) : Json :=
+def jSide (j : Json) : R Side :=
+  match getOpt j "side" with
+  | some s => do pure ⟨← jTable s "datums", ← jTable s "scripts"⟩
+  | none => pure ⟨[], []⟩
+
+def ofTable (s : List (String × J)) : Json :=
   .arr (s.map fun kv => Json.arr #[.str kv.1, ofTree kv.2]).toArray
+
+def ofSide (s : Side) : Json := Json.mkObj [("datums", ofTable s.datums), ("scripts", ofTable s.scripts)]
 
 def errName : Err → String
   | .key => "key"
@@ -108,11 +115,11 @@ def handleBackend (op : String) (j : Json) : R Json := do
     | "kupo" =>
       let (m, s) := render_kupo aux u
       pure (Json.mkObj [("main", ofTree m), ("side", ofSide s)])
-    | "ogmios_v5" => pure (Json.mkObj [("main", ofTree (render_ogmios_v5 u)), ("side", ofSide [])])
-    | "ogmios_v6" => pure (Json.mkObj [("main", ofTree (render_ogmios_v6 u)), ("side", ofSide [])])
+    | "ogmios_v5" => pure (Json.mkObj [("main", ofTree (render_ogmios_v5 u)), ("side", ofSide ⟨[], []⟩)])
+    | "ogmios_v6" => pure (Json.mkObj [("main", ofTree (render_ogmios_v6 u)), ("side", ofSide ⟨[], []⟩)])
     | "cardano_cli" =>
       let (k, m) := render_cardano_cli aux u
-      pure (Json.mkObj [("main", ofTree m), ("side", ofSide []), ("key", .str k)])
+      pure (Json.mkObj [("main", ofTree m), ("side", ofSide ⟨[], []⟩), ("key", .str k)])
     | _ => throw s!"unknown adapter {adapter}"
   | "backend.parse" =>
     let m ← jTree (← j.getObjVal? "main")
